@@ -519,6 +519,18 @@ impl<T: Clone + Eq + Debug + Default> WrappedBlock<T> {
                     }));
                     lineleft -= w.saturating_sub(wpos);
                 }
+            } else {
+                // Zero-width markers (fragment starts) stay with the word.
+                self.line.push(element);
+            }
+        }
+        // A marker left alone on an otherwise empty line would be dropped
+        // with it; keep it at the end of the line just completed.
+        if self.line.is_empty() && !self.line.v.is_empty() {
+            if let Some(prev) = self.text.last_mut() {
+                for marker in self.line.remove_items() {
+                    prev.push(marker);
+                }
             }
         }
         Ok(())
